@@ -45,6 +45,61 @@ theorem C18_unknown_environment_rejected (a : Atoms) (h : a.env = .other) : vali
 theorem C18_loopback_literals :
     loopbackEquals = ["::1", "localhost"] ∧ loopbackPrefixes = ["127."] := by decide
 
+/-! ### The refusals, stated outright
+
+Contrapositives of `C18_validate_sound`, one per clause of the property: each holds for every
+value of every other setting (all the other atoms, named and opaque, are universally
+quantified), so no combination of the remaining settings can buy an unsafe one back. -/
+
+/-- production or pilot with fsync disabled, snapshots disabled, best-effort recovery or a
+    non-learned cache strategy is refused -/
+theorem C18_durability_refused (a : Atoms) (henv : a.env = .production ∨ a.env = .pilot)
+    (hbad : a.fsyncNone = true ∨ a.snapZero = true ∨ a.recoveryBestEffort = true ∨
+            a.strategyLearned = false) : validate a = false := by
+  cases hv : validate a with
+  | false => rfl
+  | true =>
+    have h := (C18_validate_sound a hv).1 henv
+    rcases hbad with h1 | h1 | h1 | h1 <;> simp_all
+
+/-- pilot without authentication, rate limiting, protected observability endpoints, with
+    fresh-start-after-failed-recovery, or with neither TLS nor a loopback bind is refused -/
+theorem C18_pilot_exposure_refused (a : Atoms) (henv : a.env = .pilot)
+    (hbad : a.authEnabled = false ∨ a.rateLimitEnabled = false ∨ a.obsAuthOn = false ∨
+            a.freshStart = true ∨ (a.tlsEnabled = false ∧ a.grpcLoopback = false)) :
+    validate a = false := by
+  cases hv : validate a with
+  | false => rfl
+  | true =>
+    have h := (C18_validate_sound a hv).2.1 henv
+    rcases hbad with h1 | h1 | h1 | h1 | ⟨h1, h2⟩ <;> simp_all
+
+/-- production on a non-loopback bind without authentication is refused -/
+theorem C18_production_open_bind_refused (a : Atoms) (henv : a.env = .production)
+    (hbind : a.grpcLoopback = false) (hauth : a.authEnabled = false) : validate a = false := by
+  cases hv : validate a with
+  | false => rfl
+  | true =>
+    have h := (C18_validate_sound a hv).2.2 ⟨henv, hbind⟩
+    simp_all
+
+/-- `a` with the four durability settings, the fresh-start flag and the bind class replaced -/
+def withDurability (a : Atoms) (f s r l fr g : Bool) : Atoms :=
+  { a with fsyncNone := f, snapZero := s, recoveryBestEffort := r, strategyLearned := l,
+           freshStart := fr, grpcLoopback := g }
+
+/-- benchmark mode is the only escape: there the four durability settings, the fresh-start flag
+    and the bind class do not enter the verdict at all -/
+theorem C18_benchmark_ignores_durability (a : Atoms) (henv : a.env = .benchmark)
+    (f s r l fr g : Bool) : validate (withDurability a f s r l fr g) = validate a := by
+  have hp : (Env.benchmark == Env.pilot) = false := by decide
+  have hq : (Env.benchmark == Env.production) = false := by decide
+  have hplain : plainGuards (withDurability a f s r l fr g) = plainGuards a := rfl
+  unfold validate
+  rw [hplain]
+  unfold namedGuards withDurability
+  simp [henv, hp, hq]
+
 /-! ### Witnesses: both directions are non-vacuous -/
 
 def benign (env : Env) : Atoms :=
